@@ -178,6 +178,130 @@ def _agg_stmts(F, body, op, seen=None):
     return out
 
 
+def _fresh(F, body):
+    """a describer with an empty memo.  The shared describer memoises sub-results that were cut at a cycle (a loop-carried
+    local), so what a loop variable expands to depends on which query of which module ran first; a rule that reads the
+    *shape* of a loop-carried value asks a fresh describer so that the answer depends on the code only."""
+    return D.Describer(F, body)
+
+
+def _fresh_arg(F, c, i):
+    return _fresh(F, c.body).operand(c.args[i], c.bb, term_idx(c.body, c.bb)) if i < len(c.args) else ('const', 'other', '<noarg>', '')
+
+
+def _is_int(v, n):
+    return v[0] == 'const' and v[1] == 'int' and str(v[2]) == str(n)
+
+
+def _returns_unsigned(fn):
+    return fn.locals[0][0] in ('u8', 'u16', 'u32', 'u64', 'u128', 'usize')
+
+
+def _grows_only_under_guard(ctx, w, v, fld):
+    """`if v > self.f { self.f = v }` is `self.f = self.f.max(v)`: the store of v is dominated by a branch comparing that
+    same value v with `self.f`, and is unreachable from the edge on which `v <= self.f` holds"""
+    body = w.body
+    sv = _unconv(v)
+
+    def rel(o, a, b):
+        # violating: v <= self.f
+        return o == 'Le' and _unconv(a) == sv and _is_field_of_self(_unconv(b), fld)
+    for br, truth, tgt in guard_edges(ctx, body, rel):
+        if body.dominates(br.bb, w.bb) and w.bb not in body.reachable_from(tgt, avoid=[br.bb]):
+            return True
+    return False
+
+
+def _range_elem_len(x):
+    """`E.end - E.start` for one and the same E; returns E or None"""
+    if x[0] == 'bin' and x[1] == 'Sub' and x[2][0] == 'field' and x[2][2] == 'end' and x[3][0] == 'field' and x[3][2] == 'start' and x[2][1] == x[3][1]:
+        return x[2][1]
+    return None
+
+
+def _loop_elem_of_self_field(E, fld):
+    """E is the element a `for` / `while let Some(..) = it.next()` loop over `self.<fld>` (`.iter()` / `into_iter()` of it,
+    nothing else in the chain: no filter / skip / take) binds: `(Iterator::next(it) as Some).0`.  Returns the block of the
+    next() call or None."""
+    if not (E[0] == 'field' and E[2] == '0' and E[1][0] == 'variant' and E[1][2] == 'Some'):
+        return None
+    c = E[1][1]
+    if not (c[0] == 'call' and D._trait_form(c[1]) == 'Iterator::next' and len(c[3]) == 1 and len(c) > 4):
+        return None
+    it = c[3][0]
+    while it[0] == 'call' and it[1].rsplit('::', 1)[-1] in ('iter', 'into_iter') and len(it[3]) == 1:
+        it = it[3][0]
+    return c[4] if _is_field_of_self(it, fld) else None
+
+
+def _acc_step(x):
+    """`acc + (E.end - E.start)` where acc is the running total (its start value 0 or the loop-carried local); returns E or None"""
+    if not (x[0] == 'bin' and x[1] == 'Add'):
+        return None
+    for ln, acc in ((x[2], x[3]), (x[3], x[2])):
+        E = _range_elem_len(ln)
+        if E is not None and all(_is_int(y, 0) or (y[0] in ('local', 'field') and not D.calls_in(y) and not D.has_param(y) and not D.consts_in(y)) for y in flat(acc)):
+            return E
+    return None
+
+
+def _explicit_sum_of_acked_lengths(F, un, sub):
+    """the subtrahend of unacked() written as an explicit loop instead of `.iter().map(|x| x.end - x.start).sum()`:
+        let mut acc = 0; for r in self.acks.iter() { acc += r.end - r.start }
+    Exact shape: every reaching value of the subtrahend is the literal 0 or `acc + (E.end - E.start)`, E the element bound
+    by ONE next() site iterating self.acks; the subtrahend is a local all of whose definitions are those; every iteration
+    (Some edge of the branch on next()'s result) stores the step before it reaches next() again or a return; after a step
+    no return is reached without asking next() again (no early break); next() is called nowhere else.
+    Returns (sum_ok, elem_len_ok)."""
+    alts = flat(sub)
+    steps = [x for x in alts if not _is_int(x, 0)]
+    if not steps or len(steps) == len(alts):
+        return False, False
+    Es = [_acc_step(x) for x in steps]
+    if any(E is None for E in Es):
+        return False, False
+    nbs = {_loop_elem_of_self_field(E, 'acks') for E in Es}
+    if len(nbs) != 1 or None in nbs:
+        return False, True
+    nb = nbs.pop()
+    if len([c for c in un.calls() if c.f and D._trait_form(short(c.f)) == 'Iterator::next']) != 1:
+        return False, True
+    live = un.live_blocks()
+    rets = [r for r in un.return_blocks() if r in live]
+    # the accumulator: a local whose value at the return IS the subtrahend and whose definitions are `= 0` and the steps
+    acc_stores = None
+    for l in range(un.argc + 1, len(un.locals)):
+        dfs = un.defs_of(l)
+        if len(dfs) < 2 or any(df[0] != 'stmt' for df in dfs):
+            continue
+        vals = [(df, _fresh(F, un).rvalue(df[3], df[1], df[2], 0)) for df in dfs]
+        if not all(_is_int(v, 0) or _acc_step(v) is not None for _, v in vals):
+            continue
+        if all(_fresh(F, un).place([l, []], r, term_idx(un, r)) == sub for r in rets):
+            acc_stores = [df[1] for df, v in vals if not _is_int(v, 0)]
+            break
+    if not acc_stores:
+        return False, True
+    # the branch on next()'s result
+    d = _fresh(F, un)
+    some = []
+    for i, blk in enumerate(un.blocks):
+        if blk['c'] or i not in live or blk['t'][0] != 'switch':
+            continue
+        x = d.operand(blk['t'][1], i, term_idx(un, i))
+        if x[0] == 'discr' and x[1][0] == 'call' and len(x[1]) > 4 and x[1][4] == nb and D._trait_form(x[1][1]) == 'Iterator::next':
+            tg = dict((int(v), t) for v, t in blk['t'][2])
+            if 1 in tg:
+                some.append(tg[1])
+    if len(some) != 1:
+        return False, True
+    if path_avoiding(un, some, set(rets) | {nb}, acc_stores) is not None:
+        return False, True      # an iteration that skips the step
+    if path_avoiding(un, [s for b in acc_stores for s in un.succ[b]], rets, [nb]) is not None:
+        return False, True      # leaves the loop after a step without exhausting the iterator
+    return True, True
+
+
 def rule_a(ctx):
     F = ctx.facts
     wl = ctx.pfn('StreamsState::write_limit')
@@ -203,7 +327,7 @@ def rule_b(ctx):
     pops = w.calls_to('BytesSource::pop_chunk')
     ctx.floor('b', 'pop_chunk_sites', len(pops), 1)
     for c in pops:
-        lim = arg_desc(F, c, 1)
+        lim = _fresh_arg(F, c, 1)
         # every reaching value of `limit` is min(limit_param, max_data - offset), minus the lengths of chunks already popped
         ok, why = _capped(lim)
         ctx.check(ok, 'b', 'pop_limit_is_min_of_budget', w, c.where(), D.render(lim)[:200],
@@ -215,7 +339,7 @@ def rule_b(ctx):
                 continue
             for df in w.defs_of(l):
                 if df[0] == 'stmt':
-                    v = d.rvalue(df[3], df[1], df[2], 0)
+                    v = _fresh(F, w).rvalue(df[3], df[1], df[2], 0)
                     if v[0] == 'bin' and v[1] == 'Sub' and D.has_call(v[3], 'BytesSource::pop_chunk') and D.has_call(v[3], 'Bytes::len'):
                         decs.append(df[1])
         p = path_avoiding(w, w.succ[c.bb], [c.bb], decs)
@@ -225,7 +349,7 @@ def rule_b(ctx):
     sw = w.calls_to('SendBuffer::write')
     ctx.floor('b', 'sendbuffer_write_sites', len(sw), 1)
     for c in sw:
-        a = arg_desc(F, c, 1)
+        a = _fresh_arg(F, c, 1)
         ctx.check(D.has_call(a, 'BytesSource::pop_chunk'), 'b', 'appended_chunk_from_capped_pop', w, c.where(), D.render(a)[:120],
                   'SendBuffer::write argument does not derive from the capped pop_chunk: ' + D.render(a)[:200])
     who_may_call(ctx, 'b', 'sendbuffer_write_callers', ['SendBuffer::write'], ['Send::write'], floor=1)
@@ -247,7 +371,14 @@ def rule_b(ctx):
         ctx.check(ok, 'b', 'write_source_accounts_' + fld, ws, st[0][0].where() if st else ws.where(), D.render(st[0][1])[:160] if st else 'no store',
                   '%s is not incremented by exactly the written byte count in write_source' % fld)
     # limit == 0 -> Blocked before Send::write
-    guard_error(ctx, 'b', 'zero_write_limit_blocks', ws, lambda op, a, b: op == 'Eq' and ((D.has_call(a, 'StreamsState::write_limit') and D.has_const(b, 0)) or (D.has_call(b, 'StreamsState::write_limit') and D.has_const(a, 0))),
+    unsigned = _returns_unsigned(ctx.pfn('StreamsState::write_limit'))
+
+    def zero_limit(op, a, b):
+        if op == 'Eq':
+            return (D.has_call(a, 'StreamsState::write_limit') and D.has_const(b, 0)) or (D.has_call(b, 'StreamsState::write_limit') and D.has_const(a, 0))
+        # write_limit() is unsigned: `limit <= 0` (written `!(limit > 0)` / `!(0 < limit)`) is the same predicate as `limit == 0`
+        return op == 'Le' and unsigned and D.has_call(a, 'StreamsState::write_limit') and _is_int(b, 0)
+    guard_error(ctx, 'b', 'zero_write_limit_blocks', ws, zero_limit,
                 variant=('WriteError', 'Blocked'), protect=[c.bb for c in cs], what='write_limit() == 0')
 
 
@@ -316,6 +447,9 @@ def rule_d(ctx):
         if r.short == 'StreamsState::zero_rtt_rejected':
             # (re)initialisation: the limit remembered from the previous session is void once 0-RTT is rejected
             ok = v[0] == 'const' and str(v[2]) == '0'
+        elif not ok:
+            # `if n > self.max_data { self.max_data = n }` is the same monotone update as `self.max_data = self.max_data.max(n)`
+            ok = _grows_only_under_guard(ctx, w, v, 'max_data')
         ctx.check(ok, 'd', 'conn_max_data_monotone', r, w.where(), D.render(v)[:120],
                   'StreamsState.max_data stored with a non-monotone value (expected max(old, n)): ' + D.render(v)[:200])
     who_may_write(ctx, 'd', 'conn_max_data_writers', SS, 'max_data', ['StreamsState::received_max_data', 'StreamsState::new', 'StreamsState::zero_rtt_rejected'], floor=1, kinds=('assign', 'callresult', 'mutborrow'))
@@ -381,8 +515,8 @@ def rule_d(ctx):
             ctx.check(v[0] == 'param' and D.has_param(v, name='count'), 'd', 'stream_count_limit_value', rms, w.where(), D.render(v),
                       'received_max_streams stores something other than the received count: ' + D.render(v)[:160])
         elif r.id == sp.id:
-            seen_sp += 1
             ok = v[0] != 'phi' and not D.has_field(v, 'max') and (D.has_field(v, 'initial_max_streams_bidi') or D.has_field(v, 'initial_max_streams_uni')) and not D.calls_in(v) - {'VarInt::into_inner', '<VarInt as Into>::into', '<u64 as From>::from'}
+            seen_sp += bool(ok)     # the floor counts what must exist: stores that ARE a (re)initialisation from the parameter
             ctx.check(ok, 'd', 'stream_count_limit_reset_from_params', sp, w.where(), D.render(v)[:120],
                       'set_params must (re)initialise max[dir] with the transport parameter itself (limits restart after 0-RTT rejection), found: ' + D.render(v)[:200])
         elif r.short == 'StreamsState::new':
@@ -431,11 +565,18 @@ def rule_g(ctx):
     rd = [x for _, x in ret_descs(F, un)]
     ok = len(rd) == 1 and rd[0][0] == 'bin' and rd[0][1] == 'Sub' and D.has_field(rd[0][2], 'unacked_len') and not D.calls_in(rd[0][2]) - {'<u64 as From>::from'} \
         and D.has_field(rd[0][3], 'acks') and D.has_call(rd[0][3], 'Iterator::sum')
+    loop_sum = loop_len = False
+    if not ok:
+        # the same sum written as an explicit accumulation loop over self.acks
+        frd = [_fresh(F, un).place([0, []], r, term_idx(un, r)) for r in un.return_blocks() if r in un.live_blocks()]
+        if len(frd) == 1 and frd[0][0] == 'bin' and frd[0][1] == 'Sub' and D.has_field(frd[0][2], 'unacked_len') and not D.calls_in(frd[0][2]) - {'<u64 as From>::from'}:
+            loop_sum, loop_len = _explicit_sum_of_acked_lengths(F, un, frd[0][3])
+            ok = loop_sum
     ctx.check(ok, 'g', 'unacked_excludes_acked_ranges', un, un.where(), D.render(rd[0])[:160] if rd else '-',
               'SendBuffer::unacked() is no longer unacked_len - sum(len of out-of-order acked ranges): ' + (D.render(rd[0])[:200] if rd else 'no return'))
     cl = [b for b in F.code_bodies('quinn_proto') if b.kind == 'closure' and F.root_of(b).id == un.id]
     okc = any(x[0] == 'bin' and x[1] == 'Sub' and D.has_field(x[2], 'end') and D.has_field(x[3], 'start') for b in cl for _, x in ret_descs(F, b))
-    ctx.check(okc, 'g', 'acked_range_length', un, un.where(), '|x| x.end - x.start', 'the summed quantity is not the range length end - start')
+    ctx.check(okc or loop_len, 'g', 'acked_range_length', un, un.where(), '|x| x.end - x.start', 'the summed quantity is not the range length end - start')
     who_may_call(ctx, 'g', 'unacked_callers', ['SendBuffer::unacked'], ['SendStream::reset'], floor=1)
 
 
